@@ -714,6 +714,7 @@ Proof.
   intros c bl o I. destruct o; cbn.
   - apply get_Inv; exact I.
   - destruct (in_servers c a); [apply Inv_ban|]; exact I.
+  - destruct r; try exact I. destruct (in_servers c a); [apply Inv_ban|]; exact I.
   - unfold admin_ban. destruct (d <=? 0); [exact I|apply fold_ban_Inv; exact I].
   - unfold admin_unban. apply fold_unban_Inv; exact I.
 Qed.
@@ -723,6 +724,7 @@ Proof.
   intros c bl o WF S. destruct o; cbn.
   - apply get_Sub; assumption.
   - unfold in_servers. destruct (in_dec addr_eq_dec a (servers c)); [apply Sub_ban; assumption|exact S].
+  - destruct r; try exact S. unfold in_servers. destruct (in_dec addr_eq_dec a (servers c)); [apply Sub_ban; assumption|exact S].
   - unfold admin_ban. destruct (d <=? 0); [exact S|apply fold_ban_Sub; [|exact S]].
     intros a I. apply host_addrs_servers in I. tauto.
   - unfold admin_unban. apply fold_unban_Sub; exact S.
@@ -993,6 +995,60 @@ Lemma run_independent_of_client : forall c ops bl a k now g1 g2 ops',
 Proof.
   intros. unfold run. rewrite !fold_left_app. cbn [fold_left].
   rewrite (exec_fail_independent_of_client c _ a k now g1 g2). reflexivity.
+Qed.
+
+(** An answer is not a failure: a server that ANSWERS pgcat's out-of-band Parse — with
+    ParseComplete or with an ErrorResponse rejecting the statement — is not banned by it; a server
+    whose connection fails in that exchange is (a replica; the primary never). *)
+Lemma oob_answer_never_bans : forall c bl a r now, r <> OobConnFail -> step c bl (OobPrepare a r now) = bl.
+Proof. intros c bl a r now N. destruct r; try reflexivity. congruence. Qed.
+
+Lemma oob_conn_failure_bans : forall c bl a now, In a (servers c) -> a_role a = Replica ->
+  find_ban a (step c bl (OobPrepare a OobConnFail now)) = Some (MessageSendFailed, now).
+Proof.
+  intros c bl a now I R. cbn. unfold in_servers. destruct (in_dec addr_eq_dec a (servers c)); [|contradiction].
+  rewrite find_ban_role, R. destruct (addr_eq_dec a a); congruence.
+Qed.
+
+Lemma oob_conn_failure_primary : forall c bl a now, a_role a = Primary -> step c bl (OobPrepare a OobConnFail now) = bl.
+Proof. intros c bl a now R. cbn. destruct (in_servers c a); [|reflexivity]. unfold ban. rewrite R. reflexivity. Qed.
+
+(** The ban list never grows by an operation in which every server involved answered: the only
+    operations that add an entry are a failing contact in a checkout, a failure of a checked-out
+    server ([ExecFail], [OobPrepare .. OobConnFail]) and the admin's BAN. *)
+Lemma new_ban_needs_failure : forall c bl o x, reachable c bl -> wf_op c o ->
+  ~ In x (keys bl) -> In x (keys (step c bl o)) ->
+  match o with
+  | Get _ _ _ outs _ _ => failing (outs x)
+  | ExecFail a _ _ _ => a = x
+  | OobPrepare a r _ => a = x /\ r = OobConnFail
+  | AdminBan_ h _ _ => a_host x = h
+  | AdminUnban _ => False
+  end.
+Proof.
+  intros c bl o x R WF N I. destruct (reachable_Inv c bl R) as [IV _]. destruct o; cbn in I.
+  - (* Get *)
+    cbn in WF. destruct (get c req shard order outs tc bc bl) as [[res ct] bl'] eqn:G. cbn in I.
+    destruct (get_unfold _ _ _ _ _ _ _ _ _ _ _ G) as [[_ [_ [_ E]]]|[_ L]]; [subst; contradiction|].
+    destruct (wf_order_rev _ _ _ _ WF) as [ND _].
+    destruct (loop_new_keys c tc bc outs _ _ _ _ _ L x I) as [K|K]; [contradiction|].
+    apply (proj2 (loop_outcomes c tc bc outs _ _ _ _ _ L) x ND K).
+    intros E. exact (loop_returned_not_banned c tc bc outs _ _ _ _ _ IV L x E I).
+  - destruct (in_servers c a); [|contradiction]. apply keys_ban in I. destruct I; [congruence|contradiction].
+  - destruct r; try contradiction. destruct (in_servers c a); [|contradiction].
+    apply keys_ban in I. destruct I; [split; congruence|contradiction].
+  - unfold admin_ban in I. destruct (d <=? 0); [contradiction|].
+    assert (G : forall l b, In x (keys (fold_left (fun b a => if is_banned a b then b else ban a (AdminBan d) now b) l b)) ->
+                            In x (keys b) \/ In x l).
+    { induction l as [|a r IH]; intros b H; cbn in H; [left; exact H|].
+      destruct (IH _ H) as [K|K]; [|right; right; exact K].
+      destruct (is_banned a b); [left; exact K|]. apply keys_ban in K. destruct K as [K|K]; [right; left; congruence|left; exact K]. }
+    destruct (G _ _ I) as [K|K]; [contradiction|]. apply host_addrs_servers in K. tauto.
+  - unfold admin_unban in I.
+    assert (G : forall l b, In x (keys (fold_left (fun b a => if is_banned a b then remove_ban a b else b) l b)) -> In x (keys b)).
+    { induction l as [|a r IH]; intros b H; cbn in H; [exact H|]. specialize (IH _ H).
+      destruct (is_banned a b); [apply keys_remove in IH; tauto|exact IH]. }
+    apply N, (G _ _ I).
 Qed.
 
 (** ** Timeouts *)
